@@ -33,11 +33,13 @@ def takeQuals : List Tok → List Qual × List Tok
 mutual
 def parseD (form : Form) : Nat → List Tok → Option (Decl × List Tok)
   | 0, _ => none
-  | f + 1, .star :: r =>
-    match parseD form f (takeQuals r).2 with
-    | some (d, r2) => some (.ptr (takeQuals r).1 d, r2)
-    | none => none
-  | f + 1, ts => parseDirect form f ts
+  | f + 1, ts =>
+    match ts with
+    | .star :: r =>
+      match parseD form f (takeQuals r).2 with
+      | some (d, r2) => some (.ptr (takeQuals r).1 d, r2)
+      | none => none
+    | ts => parseDirect form f ts
 
 def parseDirect (form : Form) : Nat → List Tok → Option (Decl × List Tok)
   | 0, _ => none
@@ -61,21 +63,25 @@ def parseDirect (form : Form) : Nat → List Tok → Option (Decl × List Tok)
 /-- `parseDirectDeclaratorSuffix`: every suffix wraps what was parsed so far -/
 def suffixes : Nat → Decl → List Tok → Option (Decl × List Tok)
   | 0, _, _ => none
-  | f + 1, inner, .lparen :: r =>
-    match parseParams f r with
-    | some (ps, ell, .rparen :: r2) => suffixes f (.fn inner ps ell) r2
-    | _ => none
-  | f + 1, inner, .lbrack :: .rbrack :: r => suffixes f (.arr inner) r
-  | f + 1, inner, .lbrack :: .num :: .rbrack :: r => suffixes f (.arr inner) r
-  | _ + 1, _, .lbrack :: _ => none
-  | _ + 1, inner, ts => some (inner, ts)
+  | f + 1, inner, ts =>
+    match ts with
+    | .lparen :: r =>
+      match parseParams f r with
+      | some (ps, ell, .rparen :: r2) => suffixes f (.fn inner ps ell) r2
+      | _ => none
+    | .lbrack :: .rbrack :: r => suffixes f (.arr inner) r
+    | .lbrack :: .num :: .rbrack :: r => suffixes f (.arr inner) r
+    | .lbrack :: _ => none
+    | ts => some (inner, ts)
 
 /-- `parseParameterDeclarationListAndOrEllipsis`, up to (not including) the closing parenthesis -/
 def parseParams : Nat → List Tok → Option (Params × Bool × List Tok)
   | 0, _ => none
-  | _ + 1, .rparen :: r => some (.nil, false, .rparen :: r)
-  | _ + 1, .ellipsis :: _ => none                      -- `(...)`: ExpectedNamedParameterBeforeEllipsis
-  | f + 1, ts => parseParamList f ts
+  | f + 1, ts =>
+    match ts with
+    | .rparen :: r => some (.nil, false, .rparen :: r)
+    | .ellipsis :: _ => none                      -- `(...)`: ExpectedNamedParameterBeforeEllipsis
+    | ts => parseParamList f ts
 
 /-- `parseParameterDeclarationList` -/
 def parseParamList : Nat → List Tok → Option (Params × Bool × List Tok)
@@ -94,14 +100,16 @@ def parseParamList : Nat → List Tok → Option (Params × Bool × List Tok)
 /-- `parseParameterDeclaration`: specifiers, then a declarator — concrete first, abstract after backtracking -/
 def parseParam : Nat → List Tok → Option (String × Decl × List Tok)
   | 0, _ => none
-  | f + 1, .spec s :: r =>
-    match parseD .concrete f r with
-    | some (d, r2) => some (s, d, r2)
-    | none =>
-      match parseD .abstract f r with
+  | f + 1, ts =>
+    match ts with
+    | .spec s :: r =>
+      match parseD .concrete f r with
       | some (d, r2) => some (s, d, r2)
-      | none => none
-  | _ + 1, _ => none
+      | none =>
+        match parseD .abstract f r with
+        | some (d, r2) => some (s, d, r2)
+        | none => none
+    | _ => none
 end
 
 /-- a declaration's declarator: what `parseDeclarator(_, Unspecified)` builds from the tokens after the specifiers -/
